@@ -229,7 +229,8 @@ type PKGGen struct {
 var imageClasses = []string{"valid", "valid", "needs-config", "multi", "no-manifest", "garbled-manifest", "bad-manifest", "bad-object", "constraint-openshift", "constraint-version", "pull-fails", "big"}
 
 // GenPKG generates (Cluster)Packages, the images behind them and spec edits.
-func GenPKG(w *World, maxEdits int) *Scenario {
+func GenPKG(w *World, maxEdits int, opts ...string) *Scenario {
+	noErrorLoops := len(opts) > 0 && opts[0] == "no-error-loops"
 	s := w.Scn
 	sc := &Scenario{Family: "S-PKG", Facts: map[string]any{}}
 	reg := &Registry{w: w, Images: map[string]*PkgImage{}}
@@ -256,11 +257,19 @@ func GenPKG(w *World, maxEdits int) *Scenario {
 		if i == 0 {
 			class = "valid"
 		}
+		if noErrorLoops && (class == "bad-manifest" || class == "bad-object") {
+			// these fail on every pass without ever persisting status: transient faults
+			// leave residue in conditions that says nothing about convergence
+			class = "no-manifest"
+		}
 		reg.Images[ref] = buildImage(ref, class, i)
 		refs = append(refs, ref)
 		sc.Desc = append(sc.Desc, fmt.Sprintf("image %s: %s", ref, class))
 	}
 	configs := []map[string]any{nil, {"color": "red"}, {"color": "blue"}, {"color": int64(5)}}
+	if noErrorLoops {
+		configs = []map[string]any{{"color": "green"}, {"color": "red"}, {"color": "blue"}}
+	}
 	mkSpec := func() map[string]any {
 		spec := map[string]any{"image": refs[s.Intn(len(refs), "pkg-image")]}
 		if c := configs[s.Intn(len(configs), "pkg-config")]; c != nil {
